@@ -8,6 +8,8 @@ package main
 import (
 	"encoding/json"
 	"fmt"
+	"go/ast"
+	"go/token"
 	"go/types"
 	"os"
 	"path/filepath"
@@ -42,7 +44,77 @@ func dumpConstants(p *Program) {
 	fmt.Println(string(b))
 }
 
-func ruleConsts(p *Program, c *Check, verifDir string, anchoredPkgs map[string]bool) {
+// constUses: for every repository function (by key) and every package-level variable ("global:pkg.name"), the package-level
+// constants its source text refers to (SSA has them folded into literals, so this is read off the syntax).
+func constUses(p *Program) map[string]map[string]bool {
+	if p.constUse != nil {
+		return p.constUse
+	}
+	out := map[string]map[string]bool{}
+	add := func(owner string, obj types.Object) {
+		c, ok := obj.(*types.Const)
+		if !ok || c.Pkg() == nil || c.Parent() != c.Pkg().Scope() {
+			return
+		}
+		if out[owner] == nil {
+			out[owner] = map[string]bool{}
+		}
+		out[owner][c.Pkg().Name()+"."+c.Name()] = true
+	}
+	for _, pk := range p.Pkgs {
+		if isTestUtils(pk.PkgPath) {
+			continue
+		}
+		for i, file := range pk.Syntax {
+			if strings.Contains(pk.CompiledGoFiles[i], "zz_verifspec_") {
+				continue
+			}
+			for _, d := range file.Decls {
+				switch x := d.(type) {
+				case *ast.FuncDecl:
+					if x.Body == nil {
+						continue
+					}
+					owner := pk.Name + "." + x.Name.Name
+					if obj, ok := pk.TypesInfo.Defs[x.Name].(*types.Func); ok {
+						if sf := p.SSA.FuncValue(obj); sf != nil {
+							owner = funcKey(sf)
+						}
+					}
+					ast.Inspect(x.Body, func(n ast.Node) bool {
+						if id, ok := n.(*ast.Ident); ok {
+							add(owner, pk.TypesInfo.Uses[id])
+						}
+						return true
+					})
+				case *ast.GenDecl:
+					for _, sp := range x.Specs {
+						vs, ok := sp.(*ast.ValueSpec)
+						if !ok || x.Tok != token.VAR {
+							continue
+						}
+						for _, name := range vs.Names {
+							owner := "global:" + pk.Name + "." + name.Name
+							for _, v := range vs.Values {
+								ast.Inspect(v, func(n ast.Node) bool {
+									if id, ok := n.(*ast.Ident); ok {
+										add(owner, pk.TypesInfo.Uses[id])
+									}
+									return true
+								})
+							}
+						}
+					}
+				}
+			}
+		}
+	}
+	// a constant defined in terms of another one depends on it
+	p.constUse = out
+	return out
+}
+
+func ruleConsts(p *Program, c *Check, verifDir string, anchoredFuncs map[string]bool) {
 	rule := "E5-consts"
 	b, err := os.ReadFile(filepath.Join(verifDir, "spec", "constants.json"))
 	if err != nil {
@@ -55,17 +127,25 @@ func ruleConsts(p *Program, c *Check, verifDir string, anchoredPkgs map[string]b
 		return
 	}
 	have := repoConstants(p)
+	uses := constUses(p)
+	relevant := map[string]bool{}
+	for owner, cs := range uses {
+		if anchoredFuncs[owner] || (strings.HasPrefix(owner, "global:") && anchoredIn(c.Property, owner)) {
+			for k := range cs {
+				relevant[k] = true
+			}
+		}
+	}
 	keys := make([]string, 0, len(want))
 	for k := range want {
 		keys = append(keys, k)
 	}
 	sort.Strings(keys)
 	for _, k := range keys {
-		pkg := k[:strings.Index(k, ".")]
-		if !anchoredPkgs[pkg] {
+		if !relevant[k] {
 			continue
 		}
-		c.Rule(rule, "every package-level constant of a package in which this property has anchored functions has the value recorded in spec/constants.json "+
+		c.Rule(rule, "every package-level constant that an anchored function or an anchored package-level variable of this property refers to has the value recorded in spec/constants.json "+
 			"(names of methods, biases, functions and parameters; tolerances; separators): the references use the constants by name", 1)
 		h, ok := have[k]
 		if !ok {
